@@ -14,7 +14,7 @@ from ..runner import HarnessError, d64, digest_of, violation
 from ..transports import Link, RngDecider, ScriptDecider, SimBudgetExceeded, SimSocket
 
 PROP = "C12"
-RUNS = {"quick": 100000, "thorough": 3000000}
+RUNS = {"quick": 80000, "thorough": 3000000}
 BLOCK = {"quick": 500, "thorough": 5000}
 SHRINK_LISTS = ["chunks", "items", "decisions", "reads"]
 RULE = (
